@@ -378,37 +378,45 @@ def l1_runs(v, runs, tag, stats, scope=None, sync_rule=None):
         os.remove(tf)
 
 
+L1_GEN_MAX = 6000       # behaviours recorded per (configuration, profile): a recorded behaviour is ~200 trace lines
+L1_GEN_CHUNK = 1500     # ... per TLC run (Trace_Page holds the whole trace in memory)
+
+
 def l1_gens(v, gens, tag, stats, scope=None, sync_rule=None):
     import l1
     for name, consts, profiles in gens:
-        beh, s, t = kv.gen_behaviours(name, consts, workers=6)
+        allbeh, s, t = kv.gen_behaviours(name, consts, workers=6)
         stats["states"] = stats.get("states", 0) + s
+        step = (len(allbeh) + L1_GEN_MAX - 1) // L1_GEN_MAX
+        beh_sel = allbeh[::max(1, step)]
         for prof in profiles:
-            tf, res, p = l1.record_behaviours(beh, prof, tag + "-" + name)
-            if p.returncode != 0:
-                v.report({"kind": "hang" if p.returncode == 86 else "abort", "rc": p.returncode, "profile": prof,
-                          "gen": name}, {"profile": prof, "gen": name, "stderr": p.stderr[-1500:]})
-            for ln in res:
-                o = json.loads(ln)
-                if o.get("summary"):
-                    stats["replays"] = stats.get("replays", 0) + o["histories"]
-                    continue
-                hist = beh[o["line"]]
-                sig = kv.replay_sig(o["dev"], hist)
-                sig["profile"] = prof
-                if scope and not scope(sig):
-                    v.skipped += 1
-                    continue
-                v.report(sig, {"profile": prof, "history": hist["steps"][:o["dev"]["step"] + 1], "nk": hist.get("nk"),
-                               "nv": hist.get("nv"), "got": o["dev"]["got"], "allowed": o["dev"]["exp"],
-                               "panic": o["dev"].get("panic")})
-            st = l1.page_trace(v, tf, {"profile": prof, "gen": name, "nkeys": consts["NKeys"], "nvals": consts["NVals"]},
-                               also_kv=False, scope=scope, sync_rule=sync_rule)
-            for k in ("events", "states", "writes", "commits"):
-                stats[k] = stats.get(k, 0) + st[k]
-            stats["behaviours"] = stats.get("behaviours", 0) + len(beh)
-            os.remove(tf)
-        stats.setdefault("configs", []).append(dict(name=name, behaviours=len(beh), profiles=profiles))
+            for c0 in range(0, len(beh_sel), L1_GEN_CHUNK):
+                beh = beh_sel[c0:c0 + L1_GEN_CHUNK]
+                tf, res, p = l1.record_behaviours(beh, prof, tag + "-" + name)
+                if p.returncode != 0:
+                    v.report({"kind": "hang" if p.returncode == 86 else "abort", "rc": p.returncode, "profile": prof,
+                              "gen": name}, {"profile": prof, "gen": name, "stderr": p.stderr[-1500:]})
+                for ln in res:
+                    o = json.loads(ln)
+                    if o.get("summary"):
+                        stats["replays"] = stats.get("replays", 0) + o["histories"]
+                        continue
+                    hist = beh[o["line"]]
+                    sig = kv.replay_sig(o["dev"], hist)
+                    sig["profile"] = prof
+                    if scope and not scope(sig):
+                        v.skipped += 1
+                        continue
+                    v.report(sig, {"profile": prof, "history": hist["steps"][:o["dev"]["step"] + 1], "nk": hist.get("nk"),
+                                   "nv": hist.get("nv"), "got": o["dev"]["got"], "allowed": o["dev"]["exp"],
+                                   "panic": o["dev"].get("panic")})
+                st = l1.page_trace(v, tf, {"profile": prof, "gen": name, "nkeys": consts["NKeys"], "nvals": consts["NVals"]},
+                                   also_kv=False, scope=scope, sync_rule=sync_rule)
+                for k in ("events", "states", "writes", "commits"):
+                    stats[k] = stats.get(k, 0) + st[k]
+                stats["behaviours"] = stats.get("behaviours", 0) + len(beh)
+                os.remove(tf)
+        stats.setdefault("configs", []).append(dict(name=name, behaviours=len(allbeh), recorded=len(beh_sel), profiles=profiles))
 
 
 def mc_page(tier, parts=("crash", "readers", "faults", "damage"), sensitive=(), deep=None):
